@@ -1,7 +1,8 @@
 /-
 `SurfTyElab`: UNTRUSTED elaborator used by the C02 driver. It finds the binder annotations the
-verified checker `inferA` needs (monomorphic inference by unification; projections from records of
-still unknown type are deferred). Nothing is proved about it and nothing needs to be: its output
+verified checker `inferA` needs (Hindley-Milner inference by unification with generalisation at
+`let x = e` and instantiation at variables; projections from records of still unknown type are
+deferred and the types they mention are not generalised). Nothing is proved about it and nothing needs to be: its output
 is re-checked by `inferA` (sound by `inferA_sound`), and the program that is evaluated is the
 erasure of that checked output.
 
@@ -35,6 +36,8 @@ partial def encodeAnn : Sexp → Sexp
 structure St where
   subst : Array (Option STy) := #[]
   deferred : List (STy × Nat × STy) := []   -- (record type, field index, field type)
+  /-- generalise at `let x = e`? (off = the monomorphic elaborator) -/
+  gen : Bool := true
 
 abbrev EM := StateT St (Except String)
 
@@ -84,6 +87,7 @@ partial def unify (a b : STy) : EM Unit := do
     if as.length != bs.length then throw "record arity mismatch"
     else for (x, y) in as.zip bs do unify x y
   | .arr a, .arr b => unify a b
+  | .tvar a, .tvar b => if a == b then pure () else throw "type mismatch (rigid variables)"
   | _, _ => throw "type mismatch"
 
 def field (r : STy) (i : Nat) : EM STy := do
@@ -100,7 +104,7 @@ def field (r : STy) (i : Nat) : EM STy := do
 def decodePatTag (t : Nat) : Nat × Nat := (t / 1000, t % 1000)
 
 mutual
-partial def patElab (D : Decls) : Pat → STy → EM (Pat × Ctx)
+partial def patElab (D : Decls) : Pat → STy → EM (Pat × MCtx)
   | .wild, _ => pure (.wild, [])
   | .var x, τ => pure (.var x, [(x, τ)])
   | .int n, τ => do unify τ .int; pure (.int n, [])
@@ -113,7 +117,7 @@ partial def patElab (D : Decls) : Pat → STy → EM (Pat × Ctx)
     | some τs =>
       if τs.length != ps.length then throw "constructor pattern arity"
       let mut out : List Pat := []
-      let mut Δ : Ctx := []
+      let mut Δ : MCtx := []
       for (p, t) in ps.zip τs do
         let (p', Δ₁) ← patElab D p t
         out := out ++ [p']
@@ -122,7 +126,7 @@ partial def patElab (D : Decls) : Pat → STy → EM (Pat × Ctx)
       pure (.ctor tag out, Δ)
   | .record fs, τ => do
     let mut out : List (Nat × Pat) := []
-    let mut Δ : Ctx := []
+    let mut Δ : MCtx := []
     for (i, p) in fs do
       let t ← field τ i
       let (p', Δ₁) ← patElab D p t
@@ -144,21 +148,64 @@ def appTy : STy → List STy → EM STy
       unify φ' (.fn s r)
       appTy r ss
 
+/-- fully resolved form of a type -/
+partial def deep (t : STy) : EM STy := do
+  match ← resolve t with
+  | .fn a b => do pure (.fn (← deep a) (← deep b))
+  | .recd fs => do pure (.recd (← fs.mapM deep))
+  | .arr a => do pure (.arr (← deep a))
+  | t => pure t
+
+/-- the meta variables of a fully resolved type -/
+partial def metasIn : STy → List Nat
+  | .named k => if k ≥ metaBase then [k] else []
+  | .fn a b => metasIn a ++ metasIn b
+  | .recd fs => fs.foldl (fun acc t => acc ++ metasIn t) []
+  | .arr a => metasIn a
+  | _ => []
+
+/-- the meta variables that must stay monomorphic: those of the context and those that pending
+    field constraints mention (a deferred projection ties its field type to a record type that may
+    belong to the context) -/
+def envMetas (Γ : PCtx) : EM (List Nat) := do
+  let mut out : List Nat := []
+  for (_, (_, t)) in Γ do
+    out := metasIn (← deep t) ++ out
+  for (r, _, t) in (← get).deferred do
+    out := metasIn (← deep r) ++ metasIn (← deep t) ++ out
+  pure out
+
+/-- HM generalisation: the unresolved meta variables of `σ` that are not reachable from the
+    context become (rigid) type variables, numbered like the meta variable they were -/
+def generalise (Γ : PCtx) (σ : STy) : EM (List Nat) := do
+  if !(← get).gen then return []
+  let ms := (metasIn (← deep σ)).eraseDups
+  if ms.isEmpty then return []
+  let env ← envMetas Γ
+  let gs := ms.filter fun m => !env.contains m
+  for m in gs do
+    modify fun s => { s with subst := s.subst.set! (m - metaBase) (some (.tvar m)) }
+  pure gs
+
 def toAList : List AExpr → AList
   | [] => .nil
   | e :: es => .cons e (toAList es)
 
 mutual
-partial def elabE (D : Decls) (Γ : Ctx) : Expr → EM (AExpr × STy)
+partial def elabE (D : Decls) (Γ : PCtx) : Expr → EM (AExpr × STy)
   | .int n => pure (.int n, .int)
   | .str s => pure (.str s, .str)
   | .var x =>
     match lookupCtx Γ x with
-    | some t => pure (.var x, t)
+    | some ([], t) => pure (.var x [], t)
+    | some (vs, t) => do
+      -- instantiation with fresh meta variables
+      let ms ← vs.mapM fun _ => fresh
+      pure (.var x ms, (← deep t).subst (instSub vs ms))
     | none => throw s!"unbound {x}"
   | .lam xs body => do
     let ts ← xs.mapM fun _ => fresh
-    let (b, ρ) ← elabE D (bindCtx xs ts Γ) body
+    let (b, ρ) ← elabE D (bindP xs ts Γ) body
     pure (.lam (xs.zip ts) b, funTy ts ρ)
   | .app f args => do
     let (f', φ) ← elabE D Γ f
@@ -167,19 +214,25 @@ partial def elabE (D : Decls) (Γ : Ctx) : Expr → EM (AExpr × STy)
     pure (.app f' (toAList (as.map Prod.fst)), τ)
   | .let_ p e₁ e₂ => do
     let (a₁, σ) ← elabE D Γ e₁
-    let (p', Δ) ← patElab D p σ
-    let (a₂, τ) ← elabE D (Δ ++ Γ) e₂
-    pure (.let_ p' a₁ a₂, τ)
+    match p with
+    | .var x => do
+      let vs ← generalise Γ σ
+      let (a₂, τ) ← elabE D ((x, (vs, σ)) :: Γ) e₂
+      pure (.letp x vs a₁ a₂, τ)
+    | _ => do
+      let (p', Δ) ← patElab D p σ
+      let (a₂, τ) ← elabE D (liftP Δ ++ Γ) e₂
+      pure (.let_ p' a₁ a₂, τ)
   | .letrec binds body => do
     let sigs ← binds.mapM fun (_, xs, _) => do
       let ts ← xs.mapM fun _ => fresh
       let r ← fresh
       pure (ts, r)
     let τs := sigs.map fun (ts, r) => funTy ts r
-    let Γ' := recCtx binds τs Γ
+    let Γ' := recP binds τs Γ
     let mut out : List (String × List (String × STy) × STy × AExpr) := []
     for ((f, xs, e), (ts, r)) in binds.zip sigs do
-      let (b, ρ) ← elabE D (bindCtx xs ts Γ') e
+      let (b, ρ) ← elabE D (bindP xs ts Γ') e
       unify ρ r
       out := out ++ [(f, xs.zip ts, r, b)]
     let (b, τ) ← elabE D Γ' body
@@ -222,7 +275,7 @@ partial def elabE (D : Decls) (Γ : Ctx) : Expr → EM (AExpr × STy)
     let mut out : List (Pat × AExpr) := []
     for (p, e) in alts do
       let (p', Δ) ← patElab D p σ
-      let (e', τ) ← elabE D (Δ ++ Γ) e
+      let (e', τ) ← elabE D (liftP Δ ++ Γ) e
       unify τ t
       out := out ++ [(p', e')]
     let aalts := out.foldr (fun (p, e) acc => AAlts.cons p e acc) AAlts.nil
@@ -307,7 +360,9 @@ partial def zonkA : AExpr → EM AExpr
     let xs' ← xs.mapM fun (x, t) => do pure (x, ← zonk t)
     pure (.lam xs' (← zonkA b))
   | .app f args => do pure (.app (← zonkA f) (← zonkL args))
+  | .var x insts => do pure (.var x (← insts.mapM zonk))
   | .let_ p a b => do pure (.let_ p (← zonkA a) (← zonkA b))
+  | .letp x vs a b => do pure (.letp x vs (← zonkA a) (← zonkA b))
   | .letrec bs b => do pure (.letrec (← zonkB bs) (← zonkA b))
   | .ite c a b => do pure (.ite (← zonkA c) (← zonkA a) (← zonkA b))
   | .prim op a b => do pure (.prim op (← zonkA a) (← zonkA b))
@@ -346,12 +401,12 @@ def elabProgram (D : Decls) (e : Expr) (τ : STy) : Except String AExpr :=
 
 /-- elaborate a closed program with no expected type (its type is whatever inference finds;
     unresolved variables default to unit) -/
-def elabProgramInfer (D : Decls) (e : Expr) : Except String AExpr :=
+def elabProgramInfer (D : Decls) (e : Expr) (gen : Bool := true) : Except String AExpr :=
   let m : EM AExpr := do
     let (a, _) ← elabE D [] e
     solveDeferred
     zonkA a
-  match m.run {} with
+  match m.run { gen := gen } with
   | .ok (a, _) => .ok a
   | .error msg => .error msg
 
